@@ -4,7 +4,7 @@ mod square;
 mod undirected;
 mod undirected_weighted;
 mod utility;
-use crate::{Error, Graph};
+use crate::{Error, ErrorKind, Graph};
 use directed::get_directed_triangles_and_degrees;
 use directed_weighted::get_directed_weighted_triangles_and_degrees;
 use std::collections::HashMap;
@@ -74,6 +74,7 @@ where
     A: Clone + Send + Sync,
 {
     graph.ensure_not_multi_edges()?;
+    ensure_nodes_exist(graph, node_names)?;
     match graph.specs.directed {
         true => match weighted {
             true => {
@@ -120,6 +121,7 @@ where
     A: Clone + Send + Sync,
 {
     graph.ensure_undirected()?;
+    ensure_nodes_exist(graph, node_names)?;
     let tads = get_triangles_and_degrees(graph, node_names);
     Ok(tads
         .into_iter()
@@ -195,6 +197,7 @@ where
     A: Clone + Send + Sync,
 {
     graph.ensure_undirected()?;
+    ensure_nodes_exist(graph, node_names)?;
     let tads = get_triangles_and_degrees(graph, node_names);
     Ok(tads
         .into_iter()
@@ -205,6 +208,23 @@ where
 ///////////////////////
 /// PRIVATE METHODS ///
 ///////////////////////
+
+/// Returns a `NodeNotFound` error if any of the requested `node_names` is not in the graph.
+fn ensure_nodes_exist<T, A>(graph: &Graph<T, A>, node_names: Option<&[T]>) -> Result<(), Error>
+where
+    T: Hash + Eq + Clone + Ord + Display + Send + Sync,
+    A: Clone + Send + Sync,
+{
+    if let Some(names) = node_names {
+        if let Some(name) = names.iter().find(|name| !graph.has_node(name)) {
+            return Err(Error {
+                kind: ErrorKind::NodeNotFound,
+                message: format!("Requested node '{}' was not found in the graph.", name),
+            });
+        }
+    }
+    Ok(())
+}
 
 fn get_clustering_directed<T, A>(graph: &Graph<T, A>, node_names: Option<&[T]>) -> HashMap<T, f64>
 where
